@@ -111,7 +111,11 @@ def ATAN2(
     https://support.office.com/en-us/article/
         atan2-function-c04592ab-b9e3-4908-b428-c96b3a565033
     """
-    return np.arctan2(float(x_num), float(y_num))
+    if x_num == 0 and y_num == 0:
+        raise xlerrors.DivZeroExcelError()
+
+    # numpy takes the y-coordinate first: ATAN2(x, y) = atan2(y, x).
+    return np.arctan2(float(y_num), float(x_num))
 
 
 @xl.register()
